@@ -327,9 +327,12 @@ static int sweep_c11(int argc, char **argv) {
                                   "hole-then-same-seq", "hole-then-different-seq", "full-table-mapper-last-different-seq",
                                   "full-table-without-mapper", "same-seq-session-complete", "different-seq-session-complete",
                                   "same-seq-every-flag-set", "different-seq-0x8000-apart", "different-seq-0x7fff-apart",
-                                  "different-seq-0x8001-apart", "different-seq-all-bits-flipped", "different-seq-0xffff-apart-complete"};
+                                  "different-seq-0x8001-apart", "different-seq-all-bits-flipped", "different-seq-0xffff-apart-complete",
+                                  "other-generation-0", "other-generation-0xffff", "other-generation-byte-swapped",
+                                  "other-generation-0-session-complete"};
+    static const uint16_t other_gen[] = {0, 0xffff, 0x0201, 0};
     static const uint16_t far_delta[] = {0x8000, 0x7fff, 0x8001, 0, 0xffff};
-    for (int variant = 0; variant < 17; variant++) {
+    for (int variant = 0; variant < 21; variant++) {
         session_table *tab = session_table_create();
         if (!tab) { viol("C11:setup", "session_table_create failed"); return 0; }
         switch (variant) {
@@ -354,6 +357,12 @@ static int sweep_c11(int argc, char **argv) {
                 session_table_update_complete_status(tab);
                 break;
             }
+            case 17: case 18: case 19: case 20: {   /* the mapper is known under another generation number only: 0, all ones, the bytes swapped */
+                session_entry *e = session_table_add(tab, MX, other_gen[variant - 17], (uint16_t)(XID + 1));
+                if (e && variant == 20) e->complete = true;
+                session_table_update_complete_status(tab);
+                break;
+            }
             case 9: case 10: case 11: {    /* the session is already complete (the daemon marks it after an acknowledging Discover) */
                 session_entry *e = session_table_add(tab, MX, GEN, (uint16_t)(variant == 10 ? XID + 1 : XID));
                 if (e) { e->complete = true; if (variant == 11) { e->state = 0xFF; } }
@@ -361,7 +370,7 @@ static int sweep_c11(int argc, char **argv) {
                 break;
             }
         }
-        int changed = (variant == 2 || variant == 6 || variant == 7 || variant == 10 || variant >= 12);
+        int changed = (variant == 2 || variant == 6 || variant == 7 || variant == 10 || (variant >= 12 && variant < 17));
         /* the classification is a function of (frame, table, own address): the clock moves on between the moment the
          * sessions were recorded and the Discover being classified, no expiry tick in between */
         static const uint64_t clk_adv[] = {0, 59000, 1000, 1000, 1000, 3539000ull, 1ull << 33};
@@ -944,24 +953,28 @@ static int sweep_c15h(int argc, char **argv) {
     if (!a) { printf("INCONCLUSIVE constructor returned NULL\n"); return 0; }
     int T = find_state(a, "Temporary"), N = find_state(a, "Nascent"), P = find_state(a, "Pending"), C = find_state(a, "Complete");
     if (T < 0 || N < 0 || P < 0 || C < 0) { printf("INCONCLUSIVE state names not found\n"); return 0; }
-    unsigned long long cases = 0, nontriv = 0;
+    unsigned long long cases = 0, nontriv = 0, phased = 0;
     for (int s0 = 0; s0 < 4; s0++) {
         long t0 = a->states_table[s0].timeout;
         long g[5] = {0, t0 - 1, t0, t0 + 1, 10 * t0};
         for (int e1 = 0; e1 <= 7; e1++) for (int k1 = 0; k1 < 5; k1++) {
             if (g[k1] < 0) continue;
-            for (int e2 = 0; e2 <= 7; e2++) for (int k2 = 0; k2 < 5; k2++) {
+            for (int e2 = 0; e2 <= 7; e2++) for (int k2 = 0; k2 < 5; k2++) for (int ph = 0; ph < 5; ph++) {
+                /* where inside their second the two inputs fall: the timeout is counted in whole seconds of the port's
+                 * clock, whatever the sub-second phase of the readings */
+                static const unsigned ph1[5] = {7, 900, 50, 999, 0}, ph2[5] = {7, 50, 900, 0, 999};
                 uint64_t base = 70000;
                 a->current_state = (uint8_t)s0; a->last_ts = base;
-                vp_now_ms = (base + (uint64_t)g[k1]) * 1000 + 7;
+                vp_now_ms = (base + (uint64_t)g[k1]) * 1000 + ph1[ph];
                 switch_state_session(a, e1, "h1");
                 int s1 = a->current_state;
                 /* step 1 is judged by the single-step sweep; here the state it produced is taken as given */
                 long t1 = a->states_table[s1].timeout;
                 long g2v[5] = {0, t1 - 1, t1, t1 + 1, 10 * t1};
                 if (g2v[k2] < 0) continue;
-                vp_now_ms = (base + (uint64_t)g[k1] + (uint64_t)g2v[k2]) * 1000 + 7;
+                vp_now_ms = (base + (uint64_t)g[k1] + (uint64_t)g2v[k2]) * 1000 + ph2[ph];
                 switch_state_session(a, e2, "h2");
+                if (ph) phased++;
                 int s2 = a->current_state;
                 cases++;
                 /* the timeout of step 2 runs from the *input* of step 1, whatever step 1 did */
@@ -977,6 +990,7 @@ static int sweep_c15h(int argc, char **argv) {
         }
     }
     stat_ull("cases", cases);
+    stat_ull("phased_cases", phased);
     stat_ull("distinct_nontrivial", nontriv);
     stat_ull("violations", n_viol);
     printf("SAMPLE session two-step histories: 4 states x (event, gap) x (event, gap), gaps in {0,t-1,t,t+1,10t}\n");
@@ -1011,10 +1025,11 @@ static int sweep_c14h(int argc, char **argv) {
         if (s0 == Q) { g[1] = 1; g[2] = 5; g[3] = 31; g[4] = 300; }
         for (int in1 = -128; in1 <= 255; in1++) for (int k1 = 0; k1 < 5; k1++) {
             if (g[k1] < 0) continue;
-            for (size_t j = 0; j < sizeof(second) / sizeof(second[0]); j++) for (int k2 = 0; k2 < 5; k2++) {
+            for (size_t j = 0; j < sizeof(second) / sizeof(second[0]); j++) for (int k2 = 0; k2 < 5; k2++) for (int ph = 0; ph < 3; ph++) {
+                static const unsigned ph1[3] = {3, 900, 50}, ph2[3] = {3, 50, 900};   /* sub-second phase of the two readings */
                 uint64_t base = 90000;
                 a->current_state = (uint8_t)s0; a->last_ts = base;
-                vp_now_ms = (base + (uint64_t)g[k1]) * 1000 + 3;
+                vp_now_ms = (base + (uint64_t)g[k1]) * 1000 + ph1[ph];
                 switch_state_mapping(a, in1, "h1");
                 int s1 = a->current_state;
                 long t1 = a->states_table[s1].timeout;
@@ -1022,7 +1037,7 @@ static int sweep_c14h(int argc, char **argv) {
                 if (s1 == Q) { g2v[1] = 1; g2v[2] = 5; g2v[3] = 31; g2v[4] = 300; }
                 if (g2v[k2] < 0) continue;
                 int in2 = second[j];
-                vp_now_ms = (base + (uint64_t)g[k1] + (uint64_t)g2v[k2]) * 1000 + 3;
+                vp_now_ms = (base + (uint64_t)g[k1] + (uint64_t)g2v[k2]) * 1000 + ph2[ph];
                 switch_state_mapping(a, in2, "h2");
                 int s2 = a->current_state;
                 cases++;
